@@ -13,8 +13,9 @@ import (
 func init() { Registry["C04"] = checkC04 }
 
 const (
-	ruleB1 = "B1-in-bounds"
-	ruleB2 = "B2-count-bound"
+	ruleB1  = "B1-in-bounds"
+	ruleB2  = "B2-count-bound"
+	ruleB12 = "B12-decode-within-packet"
 )
 
 // decodeEntries: the declared Decode methods of the message types (deduplicated: six types
@@ -73,6 +74,7 @@ func checkC04(c *Ctx) {
 			rcs = append(rcs, rc{fn, r})
 		}
 	}
+	c.decodeWithinPacket()
 	nfun := map[string]bool{}
 	for _, k := range an.Order {
 		o := an.Obls[k]
@@ -107,4 +109,71 @@ func checkC04(c *Ctx) {
 		}
 		c.R.Check(bad == "", ruleB2, fname(fn)+":count-within-input", pos, fmt.Sprintf("0 <= n <= len(src) at all %d returns", len(by[fn])), "the byte count returned can lie outside [0, len(src)]: "+bad)
 	}
+}
+
+// decodeWithinPacket (B12): a successful Decode consumed nothing beyond the packet it decoded.
+func (c *Ctx) decodeWithinPacket() {
+	entries := c.decodeEntries()
+	an := bounds.NewAnalyzer(c.P)
+	c.R.Rule(ruleB12, "at every successful return of a Decode the byte count is at most the length of the packet's own image (header.dbuf, which B9 shows to be fixed header + remaining length): the decoder consumed - and took its fields from - nothing beyond the end of the packet it decoded, whatever follows it in src.")
+	nwithin := 0
+	// the packet's image as the fixed-header decoder left it (its length is a fixed symbolic expression; nothing in a
+	// Decode body stores header.dbuf afterwards): recorded right after the call of the header decoder
+	var image *bounds.AVal
+	dbufOf := func(heap map[string]bounds.AVal) (bounds.AVal, bool) {
+		if len(an.EntryArgs) == 0 || an.EntryArgs[0].Kind != bounds.KAddr {
+			return bounds.AVal{}, false
+		}
+		base := an.EntryArgs[0]
+		for _, path := range []string{"header.dbuf", "dbuf"} {
+			if base.Path != "" {
+				path = base.Path + "." + path
+			}
+			if v, ok := heap[base.Obj+"|"+path]; ok && v.Kind == bounds.KSlice {
+				return v, true
+			}
+		}
+		return bounds.AVal{}, false
+	}
+	sawDecode := false
+	an.Probe = func(p *bounds.Probe) {
+		if p.Depth() != 0 || image != nil {
+			return
+		}
+		if call, ok := p.Instr.(*ssa.Call); ok && p.Post {
+			if f := call.Common().StaticCallee(); f != nil && f.Name() == "decode" && recvNamed(f) == "header" {
+				sawDecode = true
+			}
+		}
+		// the image becomes known where the caller has branched on the header decoder's error
+		if sawDecode {
+			if v, ok := dbufOf(p.St.Heap); ok {
+				image = &v
+			}
+		}
+	}
+	for _, fn := range entries {
+		image, sawDecode = nil, false
+		an.Run(fn)
+		k := 0
+		for i := range an.EntryRets {
+			for _, v := range an.EntryReturnVariants(i) {
+				if len(v.Results) != 2 || v.Results[1].IsNil != 1 {
+					continue
+				}
+				k++
+				nwithin++
+				dbuf, ok := dbufOf(v.Heap)
+				if !ok && image != nil {
+					dbuf, ok = *image, true
+				}
+				good := ok && dbuf.Kind == bounds.KSlice && v.Results[0].Kind == bounds.KInt && bounds.Proves(v.Facts, bounds.LE(v.Results[0].Int, dbuf.Len))
+				c.R.Check(good, ruleB12, fmt.Sprintf("%s:return#%d:count-within-the-packet", fname(fn), k), c.P.InstrPos(v.Ret), "n <= len(packet image) on the successful return",
+					"a successful Decode can report (and take fields from) more bytes than the packet has according to its own remaining length: with a too small remaining length the decoder reads its fields from whatever follows the packet in src, and the message re-encodes to fewer bytes than were consumed")
+			}
+		}
+	}
+	an.Probe = nil
+	c.R.Count("successful returns of Decode bodies", nwithin)
+	c.R.Floor("successful returns of Decode bodies", nwithin, 8)
 }
